@@ -323,6 +323,12 @@ func (w *World) Exec(op *Op) (Result, M) {
 		out["seed"] = jsonNum(seed.String())
 		delete(out, "creator")
 		return Result{Res: "ok"}, out
+	case "genesis":
+		// export the application state module by module, validate it, and continue the history on
+		// a fresh application initialised from that export (C18)
+		delete(out, "creator")
+		res := w.genesisRoundTrip()
+		return res, out
 	case "restart":
 		delete(out, "creator")
 		resetGlobals()
